@@ -128,7 +128,11 @@ TEXT = {
                  "('a = b = c' is rejected), fuel-independence, and at the token level that SQL() of a parser-built tree adds no parenthesis and needs none. "
                  "The model is tied to memefish.ParseExpr by the EXPR channel (AST shape and SQL() text on all trees with up to 3 / 4 operator occurrences printed "
                  "minimally and fully parenthesised, token soups, mutations, sign/path cases); the predicate re-checks grouping, ParenExpr extents and the SQL() "
-                 "re-lexing on the Go code with its own table-driven printer.",
+                 "re-lexing on the Go code with its own table-driven printer. "
+                 "Regenerated tie (MF/Props/C07Ladder.lean): tools/extract/ladder.go reads the ten ladder functions parseOr .. parseUnary out of parser.go on every run and the kernel re-decides that the "
+                 "ladder they form IS the GoogleSQL table for levels 2..12 (same finite map (node kind, Op) -> level; loops with the right operand one level down = left-associative, a single application for the "
+                 "comparison family = non-associative, self-recursive prefix levels; every case dispatches on the spelling of the operator it assigns), so an operator moved to another level or a changed "
+                 "associativity in parser.go breaks a kernel-decided obligation whether or not a generator produces a distinguishing input.",
         "design_ref": "DESIGN.md §4 C07",
         "note": "Trusted: Lean kernel + standard axioms; the model MF/Model/Expr.lean (validated by the EXPR channel on explored inputs only) and the table in "
                 "MF/Spec/Precedence.lean. Partial: print_minimal is proved on tokens; the bytes-to-tokens step of the printer is checked at run time (rt flag, predicate).",
